@@ -114,6 +114,10 @@ def world():
         return Marker(reg_deser, data)
 
     JSONSerializableTypeRegistry().register(Reg, reg_ser, reg_deser)
+    # a class that is BOTH a SubclassJSONSerializer and registered: the Spec gives precedence to the class's own _from_json
+    SerReg = mkser("SerReg", (SubclassJSONSerializer,), "c19w.sub")
+    JSONSerializableTypeRegistry().register(SerReg, reg_ser, reg_deser)
+    setattr(sub, "SerReg", SerReg)
     for k, v in dict(SerA=SerA, SerB=SerB, NoImpl=NoImpl, NoImpl2=NoImpl2, Plain=Plain, Reg=Reg, RegSub=RegSub, Meta=Meta,
                      WithMeta=WithMeta, Alias=SerA, func=lambda: None, T=TypeVar("T"), const=5, none=None,
                      instance=SerA(), text="c19w.sub.SerA", lst=[SerA], UUID=uuid.UUID).items():
@@ -293,7 +297,7 @@ def tag_table(tier: str, seed: int) -> List[dict]:
              "__main__.x", "__main__.__name__", "CON.x", "nul.x", "x" * 3000 + ".y", "os." + "y" * 3000]
     # objects of every kind in the harness world and in the standard library
     names = ["c19w.sub.SerA", "c19w.sub.SerB", "c19w.SerC", "c19w.sub.NoImpl", "c19w.sub.NoImpl2", "c19w.sub.Plain", "c19w.Plain",
-             "c19w.sub.Reg", "c19w.sub.RegSub", "c19w.sub.Meta", "c19w.sub.WithMeta", "c19w.sub.Alias", "c19w.sub.func",
+             "c19w.sub.Reg", "c19w.sub.RegSub", "c19w.sub.SerReg", "c19w.sub.Meta", "c19w.sub.WithMeta", "c19w.sub.Alias", "c19w.sub.func",
              "c19w.sub.T", "c19w.sub.const", "c19w.sub.none", "c19w.sub.instance", "c19w.sub.text", "c19w.sub.lst", "c19w.sub.UUID",
              "c19w.sub.é", "c19w.sub.a b", "c19w.sub.", "c19w.sub", "c19w.nosuch.SerA", "c19w.sub.nosuch", "c19w.sub.SerA.x",
              "c19w.sub.SerA._from_json", "c19w.sub.sera", "C19W.sub.SerA", "c19w.sub.__name__", "c19w.sub.__dict__", "c19w.sub.__class__",
@@ -326,10 +330,25 @@ def tag_table(tier: str, seed: int) -> List[dict]:
     pieces = ["", ".", "..", "c19w", "sub", "SerA", "os", "path", "json", "dumps", "uuid", "UUID", "x", " ", "é", "builtins", "int",
               "NoImpl", "Reg", "typing", "T", "krrood", "adapters", "json_serializer", "SubclassJSONSerializer"]
     for _ in range(150 if tier == "quick" else 3000):
-        k = rng.randint(1, 5)
-        parts = [rng.choice(pieces) for _ in range(k)]
-        sep = rng.choice([".", ".", ".", ""])
-        out.append({"tag": sep.join(parts)})
+        if rng.chance(0.5):
+            k = rng.randint(1, 5)
+            parts = [rng.choice(pieces) for _ in range(k)]
+            sep = rng.choice([".", ".", ".", ""])
+            out.append({"tag": sep.join(parts)})
+        else:                                   # one or two edits of a name that resolves somewhere
+            t = rng.choice(names)
+            for _e in range(rng.randint(1, 2)):
+                i = rng.randint(0, len(t))
+                op = rng.randint(0, 3)
+                if op == 0 and t:
+                    t = t[:i] + t[i + 1:]
+                elif op == 1:
+                    t = t[:i] + rng.choice([".", ".", "_", "x", " "]) + t[i:]
+                elif op == 2 and i < len(t):
+                    t = t[:i] + t[i].swapcase() + t[i + 1:]
+                else:
+                    t = t + rng.choice([".", ".x", ".__class__", ".__name__", "s"])
+            out.append({"tag": t})
     # distinct
     seen, uniq = set(), []
     for d in out:
@@ -338,6 +357,31 @@ def tag_table(tier: str, seed: int) -> List[dict]:
             seen.add(k)
             uniq.append(d)
     return uniq
+
+
+def regen_entry():
+    """regeneration step shared by C18 and C19; a refused translation also removes the compiled file of the previous
+    translation, so that nothing can be built against a stale Gen/JsonResolve.vo"""
+    from translator import t_json
+    path = core.COQ / "Gen" / "JsonResolve.v"
+
+    def fn():
+        try:
+            return t_json.translate(str(core.REPO))
+        except Exception:
+            for ext in (".vo", ".vok", ".vos", ".glob"):
+                q = path.with_suffix(ext)
+                if q.exists():
+                    q.unlink()
+            raise
+    return ("Gen/JsonResolve.v", fn, path)
+
+
+def coqchk(rep: Report, prop: str) -> None:
+    """thorough tier: re-check the compiled theorems with the independent checker"""
+    rc, out = core.sh(["timeout", "900", "coqchk", "-o", "-silent", "-Q", ".", "Krrood", f"Krrood.Props.{prop}"], cwd=core.COQ, timeout=930)
+    ok = rc == 0 and "Axioms: <none>" in out and "type-in-type: <none>" in out and "unsafe (co)fixpoints: <none>" in out
+    rep.oblige(f"coqchk:Props/{prop}.vo", ok, "axioms <none>, no type-in-type, no unsafe fixpoints" if ok else out[-400:])
 
 
 def load_corpus() -> List[Tuple[str, dict]]:
@@ -372,8 +416,10 @@ def run(tier: str, seed: int, replay=None) -> int:
     rep.oblige("build:spec", ok_spec, "" if ok_spec else core.first_error(log))
     model_ok = core.standard_proof_steps(
         rep, PROP, ["Props/C19.vo"],
-        regen=[("Gen/JsonResolve.v", lambda: t_json.translate(str(core.REPO)), core.COQ / "Gen" / "JsonResolve.v")])
+        regen=[regen_entry()])
 
+    if model_ok and tier == "thorough" and not replay:
+        coqchk(rep, PROP)
     findings = core.load_findings(PROP)
     corpus = load_corpus()
     if replay:
@@ -410,7 +456,9 @@ def run(tier: str, seed: int, replay=None) -> int:
             rep.oblige("correspondence:model", False, f"model differs from impl=spec on {d}")
             continue
         # impl != spec
-        if code == 2 and pr["abstract"] and im == [30, PYEXN["NotImplementedError"]]:
+        # known finding C19-b: narrow match = the class predicate AND the outcome the faithful model predicts
+        # (code 2: impl = model; when the model cannot be built, the prediction recorded with the witness: [30,107])
+        if (code == 2 or not model_ok) and pr["abstract"] and im == [30, PYEXN["NotImplementedError"]]:
             kf_instances["C19-b"] = kf_instances.get("C19-b", 0) + 1
             continue
         bad.append((d, pr, im, code))
